@@ -761,8 +761,12 @@ func (ds *AnySource) writeControlStart(config *WriteControlConfig) error {
 		var pixel Pixel
 
 		if config.MapInternalOnly != nil {
+			// Channel numbers need not start at 1 (AnySource.PrepareChannels numbers from 0):
+			// a channel whose number has no entry in the map keeps the zero Pixel.
 			channelNumber := ds.chanNumbers[i]
-			pixel = config.MapInternalOnly.Pixels[channelNumber-1]
+			if channelNumber >= 1 && channelNumber <= len(config.MapInternalOnly.Pixels) {
+				pixel = config.MapInternalOnly.Pixels[channelNumber-1]
+			}
 		}
 		if dsp.Decimate {
 			fps = dsp.DecimateLevel
